@@ -488,6 +488,7 @@ func checkC02(w *World, c *Check, tier string) {
 	checkNamesDupKind(w, c, t)
 	checkBraces(w, c)
 	checkEscaper(w, c, "C02.escaper")
+	checkGrammar(w, c, "C02.grammar")
 }
 
 func checkRaw(w *World, c *Check, t *tables) {
